@@ -1680,6 +1680,10 @@ func (s *Server) loadServerInfo(v system.Info) {
 // loadSubscriptions restores subscriptions from the datastore.
 func (s *Server) loadSubscriptions(v []storage.Subscription) {
 	for _, sub := range v {
+		if sub.Qos > 2 {
+			continue // a refused subscription is stored with its failure code, it never existed
+		}
+
 		sb := packets.Subscription{
 			Filter:            sub.Filter,
 			RetainHandling:    sub.RetainHandling,
